@@ -36,6 +36,11 @@ pub trait Rt: Clone + Send + Sync + 'static {
     fn spawn(&self, path: Path, f: Box<dyn FnOnce(Self) -> BoxFuture<'static, ()> + Send>) -> JoinH;
     /// suspend once, waking oneself
     fn yield_now(&self) -> BoxFuture<'static, ()>;
+    /// the same, but the task wakes itself through a consumed copy of its waker (`waker.clone().wake()`)
+    /// instead of `wake_by_ref`: two entry points of one `Wake` implementation
+    fn yield_by_value(&self) -> BoxFuture<'static, ()> {
+        self.yield_now()
+    }
     /// task-to-task channel `c` of the universe
     fn chan_send(&self, c: usize, v: u32);
     fn chan_recv(&self, c: usize) -> BoxFuture<'static, u32>;
@@ -141,8 +146,12 @@ pub fn run<R: Rt>(mut env: TaskEnv<R>, stmts: Vec<Stmt>) -> BoxFuture<'static, T
                     env.last = env.rt.chain_rr(a, b).await.digest();
                 }
                 Stmt::Yield(n) => {
-                    for _ in 0..n {
-                        env.rt.yield_now().await;
+                    for i in 0..n {
+                        if (i as u16 + n as u16) % 2 == 0 {
+                            env.rt.yield_now().await;
+                        } else {
+                            env.rt.yield_by_value().await;
+                        }
                     }
                 }
                 Stmt::ChanSend(c) => env.rt.chan_send(c as usize % CHANS, env.last),
@@ -395,12 +404,16 @@ impl Drop for LeafSub {
 }
 
 /// a future that suspends exactly once after waking itself (used by the crux runtimes)
-pub fn self_waking_yield() -> BoxFuture<'static, ()> {
+pub fn self_waking_yield(by_value: bool) -> BoxFuture<'static, ()> {
     let mut first = true;
     futures::future::poll_fn(move |cx| {
         if first {
             first = false;
-            cx.waker().wake_by_ref();
+            if by_value {
+                cx.waker().clone().wake();
+            } else {
+                cx.waker().wake_by_ref();
+            }
             Poll::Pending
         } else {
             Poll::Ready(())
